@@ -2861,6 +2861,21 @@ func (n *node) isType(sc *scope) bool {
 	return false
 }
 
+// isValue returns true if node is known to denote a value rather than a type:
+// an expression on a declared variable or on the result of a call.
+func (n *node) isValue(sc *scope) bool {
+	switch n.kind {
+	case callExpr:
+		return true
+	case indexExpr, parenExpr, selectorExpr, sliceExpr, starExpr:
+		return n.child[0].isValue(sc)
+	case identExpr:
+		sym, _, ok := sc.lookup(n.ident)
+		return ok && sym.kind == varSym
+	}
+	return false
+}
+
 // wireChild wires AST nodes for CFG in subtree.
 func wireChild(n *node, exclude ...nkind) {
 	child := excludeNodeKind(n.child, exclude)
